@@ -9,6 +9,8 @@
 (*        the loss column it was given, the private bookkeeping after the  *)
 (*        call (losses as small integers, 99 = +inf), bp: _best_point is   *)
 (*        the first row of least loss                                      *)
+(*        ctx "calibrator": the call was made by a real Calibrator, and    *)
+(*        ownwin: the window rows are exactly the batch returned last time *)
 (*   reset{}                            after reset()                      *)
 (* The logged fields are bound to the variables of Swarm.tla and the next  *)
 (* state is computed by its operators (StepResult / Fresh).                *)
@@ -32,6 +34,7 @@ StepOK(e) == /\ up /\ Grows(e)
              /\ LET r == StepResult(e.hist, best, g, start, e.np) IN e.best = r[1] /\ e.g = r[2]
              /\ e.start = Len(e.hist)
              /\ e.bp
+             /\ (e.ctx = "calibrator" => e.ownwin)        \* inside a real calibration the window rows are the batch the swarm returned
 EvOK(e) == CASE e.e = "setup" -> SetUpOK(e)
              [] e.e = "step" -> StepOK(e)
              [] e.e = "reset" -> up
@@ -46,6 +49,7 @@ Why == IF ~More THEN "end"
               [] Ev.e = "step" /\ ~Grows(Ev) -> "history-not-a-prefix"
               [] Ev.e = "step" /\ Ev.start # Len(Ev.hist) -> "window-start"
               [] Ev.e = "step" /\ ~Ev.bp -> "best-point"
+              [] Ev.e = "step" /\ Ev.ctx = "calibrator" /\ ~Ev.ownwin -> "window-not-own-batch"
               [] Ev.e = "step" -> "best-loss-table-or-global-best"
               [] OTHER -> "unexplained"
 Report == /\ (l = Len(T) + 1 => PrintT(<<"OK", tid>>))
